@@ -21,6 +21,9 @@ type monitor func(c *child.Ctx, replayCase json.RawMessage)
 
 var monitors = map[string]monitor{}
 
+// preludes run before anything else in the process has touched the code under test.
+var preludes = map[string]func(*child.Ctx){}
+
 func main() {
 	c := child.Parse()
 	m, ok := monitors[c.Prop]
@@ -43,6 +46,11 @@ func main() {
 			os.Exit(3)
 		}
 		rc = rf.Case
+	}
+	// in some processes the very first use of the code under test is made by several
+	// goroutines at once (anything initialised lazily meets its first callers together)
+	if p, ok := preludes[c.Prop]; ok && rc == nil {
+		p(c)
 	}
 	selfTest(c)
 	m(c, rc)
